@@ -352,7 +352,10 @@ impl BlockWrite for RollingWriter {
                     let file = self.directory.open_file(&next_file_number)?;
                     (next_file_number, file)
                 } else {
-                    let next_file_number = self.directory.files.inc(&self.file_number);
+                    let next_file_number =
+                        self.directory.files.inc(&self.file_number).ok_or_else(|| {
+                            io::Error::new(io::ErrorKind::Other, "wal file number overflow")
+                        })?;
                     let file = create_file(&self.directory.dir, &next_file_number)?;
                     (next_file_number, file)
                 };
